@@ -41,7 +41,7 @@ ECC = {'header': ['--max_block_size', '40', '-s', '200', '-r', '0.3'],
 
 def scenario(name):
     """-> list of problems (empty = holds).  name: 'C03-header', 'C03-whole', 'C01-header', 'C01-whole', 'C05', 'C18', 'C15',
-    'C16', 'C17', 'C19', 'C20' (the last five also go through command aliases: hecc, recc, rfigc, resilience_tester)."""
+    'C01-<tool>-efile', 'C01-<tool>-efile1' (correction restricted by an --errors_file), 'C16', 'C17', 'C19', 'C20' (the last five also go through command aliases: hecc, recc, rfigc, resilience_tester)."""
     d = tempfile.mkdtemp(prefix='pffcli')
     bad = []
     try:
@@ -51,6 +51,8 @@ def scenario(name):
             rc, out = pff([tool, '-i', 'in', '-d', 'ecc.db', '-g', '-f', '-l', 'gen.log'] + ECC[tool], d)
             if rc != 0:
                 bad.append({'step': 'generate with -l', 'exit': rc, 'tail': out[-300:]})
+            if 'efile' in name:
+                pff(['hash', '-i', 'in', '-d', 'db.csv', '-g', '-f', '--silent'], d)
             os.mkdir(d + '/out')
             want_out = {}
             if name.startswith('C01'):
@@ -60,9 +62,23 @@ def scenario(name):
                         b[i] ^= 0x41
                     open(os.path.join(d, 'in', *rel.split('/')), 'wb').write(bytes(b))
                     want_out[rel] = FILES[rel] if tool == 'whole' else FILES[rel][:200] + bytes(b)[200:]
-            rc, out = pff([tool, '-i', 'in', '-d', 'ecc.db', '-c', '-o', 'out', '-l', 'corr.log'] + ECC[tool], d)
+            extra = []
+            if name.endswith(('-efile', '-efile1')):
+                # the documented two-step workflow: `pff hash -e` writes the list of failing files (in another directory than the
+                # current one), correction is restricted to it with -e.  -efile1: a hand-made list naming one of the two damaged files
+                # -> only that one is repaired (the other is skipped, not a failure).
+                os.mkdir(d + '/lists')
+                if name.endswith('-efile'):
+                    rch, outh = pff(['hash', '-i', 'in', '-d', 'db.csv', '-e', 'lists/err.csv', '--silent'], d)
+                    if rch in (0, 'TIMEOUT'):
+                        bad.append({'step': 'hash check of the damaged tree', 'exit': rch, 'expected': 'non-zero', 'tail': outh[-300:]})
+                else:
+                    open(d + '/lists/err.csv', 'w').write('a.bin|listed by hand\n')
+                    want_out = {'a.bin': want_out['a.bin']}
+                extra = ['-e', 'lists/err.csv']
+            rc, out = pff([tool, '-i', 'in', '-d', 'ecc.db', '-c', '-o', 'out', '-l', 'corr.log'] + extra + ECC[tool], d)
             if rc != 0:
-                bad.append({'step': 'correct with -l', 'exit': rc, 'expected': 0, 'tail': out[-300:]})
+                bad.append({'step': 'correct with -l' + (' and -e' if extra else ''), 'exit': rc, 'expected': 0, 'tail': out[-300:]})
             got = read_tree(d + '/out')
             if got != want_out:
                 bad.append({'step': 'output folder', 'got': sorted(got), 'expected': sorted(want_out),
